@@ -806,4 +806,39 @@ def scenarios(tick=0.125):
             _fr("x", enacts=[["done", ["me"]]])]},
         {"name": "a2", "sched": "aux", "order": "mid", "period": 0.0, "first": "x", "frames": [
             _fr("x")]}]})))
+    # S8: forced re-entry of the ACTIVE main frame while its conditional auxiliary is running: the auxiliary is
+    # exited with the frame, the full outline is entered again and must be active again (not the truncated one)
+    out.append(("reenter-main-while-suspended", _tagged({"tick": tick, "nvars": 1, "framers": [
+        {"name": "m0", "sched": "active", "order": "mid", "period": 0.0, "first": "f0", "frames": [
+            _fr("f0", preacts=[["go", [["recurred", ">=", 3]], "f0"], ["aux", [["var", 0, ">=", 0]], "a1"]]),
+            _fr("g", "f0")]},
+        {"name": "a1", "sched": "aux", "order": "mid", "period": 0.0, "first": "x", "frames": [_fr("x")]}]})))
+    # S9: main frame left while its conditional auxiliary is running, then re-entered: the auxiliary must be
+    # enterable again (its exit with the main frame completed it)
+    out.append(("leave-and-return-while-suspended", _tagged({"tick": tick, "nvars": 1, "framers": [
+        {"name": "m0", "sched": "active", "order": "mid", "period": 0.0, "first": "g", "frames": [
+            _fr("f0", preacts=[["go", [["recurred", ">=", 2]], "h"], ["aux", [["var", 0, ">=", 0]], "a1"]]),
+            _fr("g", "f0"),
+            _fr("h", preacts=[["go", [["recurred", ">=", 2]], "g"]])]},
+        {"name": "a1", "sched": "aux", "order": "mid", "period": 0.0, "first": "x", "frames": [_fr("x")]}]})))
+    # S10: an upper frame's transition depends on what a LOWER frame's auxiliary did in its own transition
+    # phase of the same tick (all auxiliaries segue before any frame's transition clauses are evaluated)
+    out.append(("aux-segue-before-all-preacts", _tagged({"tick": tick, "nvars": 1, "framers": [
+        {"name": "m0", "sched": "active", "order": "mid", "period": 0.0, "first": "lo", "frames": [
+            _fr("up", preacts=[["go", [["var", 0, ">=", 1]], "fin"]]),
+            _fr("lo", "up", auxes=["a1"]),
+            _fr("fin")]},
+        {"name": "a1", "sched": "aux", "order": "mid", "period": 0.0, "first": "x", "frames": [
+            _fr("x", preacts=[["go", [["recurred", ">=", 2]], "y"]]),
+            _fr("y", enacts=[["put", 0, 1]])]}]})))
+    # S11: ready while the first frame's guard holds, guard goes false, then start: the start must be refused
+    out.append(("ready-then-guard-false-then-start", _tagged({"tick": tick, "nvars": 1, "framers": [
+        {"name": "m0", "sched": "active", "order": "front", "period": 0.0, "first": "f0", "frames": [
+            _fr("f0", enacts=[["put", 0, 1], ["rec", 905], ["bid", "ready", ["m1"], None]],
+                preacts=[["go", [["recurred", ">=", 2]], "f1"]]),
+            _fr("f1", enacts=[["put", 0, 0], ["rec", 906], ["bid", "start", ["m1"], None]],
+                preacts=[["go", [["recurred", ">=", 3]], "f2"]]),
+            _fr("f2", enacts=[["rec", 907], ["bid", "stop", ["all"], None]])]},
+        {"name": "m1", "sched": "inactive", "order": "back", "period": 0.0, "first": "f0", "frames": [
+            _fr("f0", beacts=[["var", 0, ">=", 1]])]}]})))
     return out
